@@ -256,7 +256,7 @@ def tree_equal(lab, want, ignore_mtime=(), disks=None, allow_extra=None):
         for ino, ps in groups_w.items():
             inos = {now[p][4] for p in ps if p in now and now[p][0] == "f"}
             if len(inos) > 1:
-                diffs.append((d, sorted(ps), "hardlink-identity"))
+                diffs.append((d, tuple(sorted(ps)), "hardlink-identity"))
     return diffs
 
 
